@@ -333,8 +333,8 @@ impl<'a, S: Source + 'a> Primitive<'a, S> {
     }
 
     /// Parses the primitive value as a INTEGER value limited to a `u128`.
-    pub fn to_u128(&mut self) -> Result<u64, DecodeError<S::Error>> {
-        Unsigned::u64_from_primitive(self)
+    pub fn to_u128(&mut self) -> Result<u128, DecodeError<S::Error>> {
+        Unsigned::u128_from_primitive(self)
     }
 
     /// Converts the content octets to a NULL value.
